@@ -22,4 +22,8 @@ MODULES = [
     "contracts.c_lemmas",
 ]
 EXPECTED_MIN_OBLIGATIONS = {}
+# q -> properties whose statement contains q's: every obligation that decides q is also run and reported for them.
+#   C03 (no future is lost) is the liveness half of C01 (every non-cancelled future resolves with its own outcome): a lost future is a
+#   submission whose outcome is never delivered.
+PROP_IMPLIES = {"C03": ["C01"]}
 PROPERTY_ASSUMPTIONS = {}
